@@ -1,5 +1,6 @@
 import CoolerModel.Drv.JsonUtil
 import CoolerModel.Model.Create
+import CoolerModel.Model.Unordered
 open Lean
 namespace Cooler.Drv.C01
 open Cooler Cooler.Drv Cooler.Create
@@ -19,6 +20,25 @@ def handle : Handler := fun op a =>
       let vs ← fld a "values" >>= listOf intOf
       return Json.mkObj [("stored", jOpt (jList jInt) (checkedWrite signed bits vs)),
         ("unchecked", jList jInt (vs.map (clipInt signed bits)))]
+  | "C01.unordered" => some do
+      -- an iterable of chunks given without `ordered=True`: the external-sort path (one merge pass, or two over the
+      -- given grouping) and its L0 (the key-sorted records: theorems unordered_eq_frame, unordered_roundtrip)
+      let chunks ← fld a "chunks" >>= listOf (listOf pxOf)
+      let edges ← fld a "edges" >>= optOf (listOf natOf)
+      return Json.mkObj [("stored", jPixels (Unordered.createFromUnordered chunks edges)),
+        ("sorted", jPixels (sortByKey chunks.flatten)),
+        ("edges_valid", Json.bool (match edges with | none => true | some es => Unordered.validEdges chunks.length es))]
+  | "C01.window" => some do
+      -- L0 of the full-matrix view on windows, evaluated on the records handed in (for a large store: the records
+      -- touching the window, theorems specWindow_local / specDense_local)
+      let ps ← getPixels a "pixels"
+      let symm ← getBool a "symm"
+      let boxes ← fld a "boxes" >>= listOf (fun j => do
+        match ← listOf natOf j with
+        | [i0, i1, j0, j1] => return (⟨i0, i1, j0, j1⟩ : Box)
+        | _ => throw "box: four naturals expected")
+      return jList (fun (b : Box) => Json.mkObj [("spec", jPixels (specWindow symm ps b)),
+        ("dense", jList jInts (specDense symm ps b))]) boxes
   | "C01.json_literal" => some do
       -- variant oracle of known finding D16: does the string parse as a JSON document, and to what
       let s ← getStr a "s"
